@@ -661,3 +661,27 @@ MUTANTS += [
     ],
      'expect': {'C14': None}, 'sed': [('\\*pstate == 0x0([0-5])', '*pstate == 0x1\\1'), ('\\*pstate = 0x0([0-5])', '*pstate = 0x1\\1')]},
 ]
+
+MUTANTS += [
+    # the decoder's internal next-state codes and the scan-mode bits renumbered: internal, no behaviour change
+    {'name': 'silent_next_state_codes_renumbered', 'edits': [(P, '''#define BINSON_STATE_PARSED_STRING          (0x0010U)
+#define BINSON_STATE_PARSED_BOOLEAN         (0x0020U)
+#define BINSON_STATE_PARSED_DOUBLE          (0x0040U)
+#define BINSON_STATE_PARSED_INTEGER         (0x0080U)''', '''#define BINSON_STATE_PARSED_STRING          (0x0080U)
+#define BINSON_STATE_PARSED_BOOLEAN         (0x0040U)
+#define BINSON_STATE_PARSED_DOUBLE          (0x0020U)
+#define BINSON_STATE_PARSED_INTEGER         (0x0010U)''')],
+     'expect': {'C02': None, 'C10': None, 'C14': None, 'C06': None, 'C08': None, 'C03': None, 'C05': None}},
+    {'name': 'silent_scan_modes_renumbered', 'edits': [(P, '''#define BINSON_ADVANCE_VERIFY               (0x01U)
+#define BINSON_ADVANCE_ENTER_OBJECT         (0x02U)
+#define BINSON_ADVANCE_LEAVE_OBJECT         (0x04U)
+#define BINSON_ADVANCE_ENTER_ARRAY          (0x08U)
+#define BINSON_ADVANCE_LEAVE_ARRAY          (0x10U)
+#define BINSON_ADVANCE_VALUE                (0x20U)''', '''#define BINSON_ADVANCE_VERIFY               (0x20U)
+#define BINSON_ADVANCE_ENTER_OBJECT         (0x10U)
+#define BINSON_ADVANCE_LEAVE_OBJECT         (0x08U)
+#define BINSON_ADVANCE_ENTER_ARRAY          (0x04U)
+#define BINSON_ADVANCE_LEAVE_ARRAY          (0x02U)
+#define BINSON_ADVANCE_VALUE                (0x01U)''')],
+     'expect': {'C02': None, 'C06': None, 'C07': None, 'C08': None, 'C11': None, 'C14': None, 'C16': None, 'C01': None, 'C03': None}},
+]
